@@ -38,16 +38,17 @@ theorem transEvs_heap (v : Variant) (hv : v.callCopies = true) :
       | out e => simp only [transEvs]; rw [ih]
       | expr e => simp only [transEvs]; rw [ih]
       | other => simp only [transEvs]; rw [ih]
+      | incl t fb => simp only [transEvs]; rw [ih]
 
 theorem pullSource_heap (v : Variant) (hv : v.callCopies = true) (fuel : Nat) (h : Heap) (st : St)
     (src : Src) : (pullSource v fuel h st src).h = h := by
   cases src with
-  | direct i =>
+  | direct root i =>
     simp only [pullSource]
     split
     · rfl
     · split <;> rfl
-  | trans i started pend =>
+  | trans root i started pend =>
     simp only [pullSource]
     split
     · rfl
@@ -77,6 +78,7 @@ theorem flat_heap (v : Variant) (hv : v.callCopies = true) :
             match t with
             | .out e => ⟨p.1.h, p.1.st, p.1.src, p.2, .ev e⟩
             | .other => ⟨p.1.h, p.1.st, p.1.src, p.2, .err .unmodelled⟩
+            | .incl ti fb => ⟨p.1.h, p.1.st, p.1.src, p.2, .incl ti fb⟩
             | .expr ex =>
               match eval p.1.st.ctx.frames ex with
               | .error er => ⟨p.1.h, p.1.st, p.1.src, p.2, .err er⟩
@@ -104,6 +106,7 @@ theorem flat_heap (v : Variant) (hv : v.callCopies = true) :
       · split
         · exact hp
         · exact hp
+        · exact hp
         · split
           · exact hp
           · rw [ih]; exact hp
@@ -124,11 +127,34 @@ theorem flat_heap (v : Variant) (hv : v.callCopies = true) :
     | nil => exact key (pullSource v n h st src, []) (pullSource_heap v hv n h st src)
     | cons it rest => exact key (⟨h, (pull h n st it).st, src, (pull h n st it).out⟩, (pull h n st it).it :: rest) rfl
 
-theorem stepR_heap (v : Variant) (hv : v.callCopies = true) (fuel : Nat) (h : Heap) (r : Render) :
-    (stepR v fuel h r).1 = h := by
+theorem pipe_heap (v : Variant) (hv : v.callCopies = true) (tr : Bool) (roots : List Nat) :
+    ∀ (fuel : Nat) (h : Heap) (st : St) (frames : List PFrame) (touched : List Nat),
+      (pipe v tr roots fuel h st frames touched).h = h := by
+  intro fuel
+  induction fuel with
+  | zero => intro h st frames touched; simp [pipe]
+  | succ n ih =>
+    intro h st frames touched
+    cases frames with
+    | nil => simp [pipe]
+    | cons f outer =>
+      have hf := flat_heap v hv n h st f.src f.stack
+      simp only [pipe]
+      split
+      · exact hf
+      · exact hf
+      · rw [ih]; exact hf
+      · split
+        · exact hf
+        · rw [ih]; exact hf
+      · rw [ih]; exact hf
+      · exact hf
+
+theorem stepR_heap (v : Variant) (hv : v.callCopies = true) (tr : Bool) (roots : List Nat) (fuel : Nat)
+    (h : Heap) (r : Render) : (stepR v tr roots fuel h r).h = h := by
   unfold stepR
   split
-  · exact flat_heap v hv fuel h _ _ _
+  · exact pipe_heap v hv tr roots fuel h _ _ _
   · rfl
 
 /-! ## the reordering loop one list-method call at a time -/
@@ -198,6 +224,7 @@ theorem extractEvs_heap (v : Variant) (hv : v.extractCopies = true) :
       | out e => simp only [extractEvs]; exact ih _ _
       | expr e => simp only [extractEvs]; exact ih _ _
       | other => simp only [extractEvs]; exact ih _ _
+      | incl t fb => simp only [extractEvs]; exact ih _ _
       | sub d b =>
         cases d with
         | priv a => simp [extractEvs]
